@@ -61,6 +61,7 @@ type deriver struct {
 	imports map[string]*interp.Struct // registry model: path -> Package
 	importOrder []string
 	nerr   int
+	errEvent map[int]int // error number -> index of the event that produced it
 }
 
 type varRec struct {
@@ -84,6 +85,10 @@ func (d *deriver) ev(kind, detail string, v ...interp.Value) {
 
 func (d *deriver) errVal(what string) interp.Value {
 	d.nerr++
+	if d.errEvent == nil {
+		d.errEvent = map[int]int{}
+	}
+	d.errEvent[d.nerr] = len(d.events) - 1
 	return &interp.Unknown{Why: fmt.Sprintf("error#%d of %s", d.nerr, what)}
 }
 
@@ -591,6 +596,30 @@ func (d *deriver) run(formatter string) (*Derived, error) {
 	default:
 		dv.Failed = true
 		_ = r
+	}
+	// which abstract errors were decided non-nil on this path
+	nonNil := map[int]bool{}
+	for key, val := range d.m.Choices.Memo() {
+		i := strings.Index(key, "error#")
+		if i < 0 {
+			continue
+		}
+		var k int
+		fmt.Sscanf(key[i:], "error#%d", &k)
+		neg := strings.Count(key[:i], "!(")%2 == 1 // `err != nil` is recorded as !(err == nil)
+		if val == neg {
+			nonNil[k] = true
+		}
+	}
+	for k := range nonNil {
+		ei := d.errEvent[k]
+		last := ei == len(d.events)-1
+		what := "?"
+		if ei >= 0 && ei < len(d.events) {
+			what = d.events[ei].Kind
+		}
+		dv.ob("G-MOCK/fail-stop", "after-"+what, last, "after %s failed, Mock goes on (%s): a failure must end the run before anything else is done, in particular before anything is written", what, eventKinds(d.events[ei+1:]))
+		dv.ob("G-MOCK/error-returned", "after-"+what, dv.Failed, "%s failed but Mock returned nil: the failure is swallowed and the caller sees success", what)
 	}
 	d.obligations(dv, formatter)
 	return dv, nil
